@@ -46,8 +46,15 @@ pub fn gen_entries(rng: &Rng, max_files: usize) -> Entries {
         if !v.is_empty() && rng.chance(1, 8) {
             // a name that differs from an earlier one only in letter case (or not at all), with the same or another line set
             let (n0, l0) = v[rng.below(v.len())].clone();
-            let name = match rng.below(3) {
+            let name = match rng.below(4) {
                 0 => n0.clone(),
+                3 => {
+                    // a numeric variant: a zero inserted before the first digit run, or "1" appended ("Vault1" / "Vault01")
+                    match n0.find(|c: char| c.is_ascii_digit()) {
+                        Some(i) => format!("{}0{}", &n0[..i], &n0[i..]),
+                        None => format!("{}01", n0),
+                    }
+                }
                 1 => n0.to_uppercase(),
                 _ => n0.chars().enumerate().map(|(i, c)| if i % 2 == 0 { c.to_ascii_uppercase() } else { c.to_ascii_lowercase() }).collect(),
             };
